@@ -80,6 +80,35 @@ PROPS["C11"] = dict(
     explanation="",
 )
 
+PROPS["C05"] = dict(
+    modules=["common", "hdrs", "c03", "c02", "c05"],
+    contracts=["asgi.Response.__call__", "wsgi.Response.__call__", "asgi.SmallResponse.__call__", "wsgi.SmallResponse.__call__",
+               "asgi.StreamingResponse.__call__", "Headers.__init__", "MutableHeaders.__setitem__",
+               "wsgi.handle_all", "wsgi.handle_single_range", "wsgi.handle_several_ranges", "wsgi.FileResponse.__call__",
+               "asgi.fake_sendfile", "asgi.zerocopy_sendfile", "asgi.handle_all", "asgi.handle_single_range",
+               "asgi.handle_several_ranges", "asgi.FileResponse.__call__"],
+    refute={"quick": [2], "thorough": [1, 2, 3]},
+    native="c05",
+    level="proof",
+    trusted=["A-py-1", "A-solver", "A-pyvc"],
+    level_text="The gateway protocol is a ghost automaton (ASGI: start once and first, body events with more_body false only on "
+               "the last, nothing afterwards; WSGI: start_response once and before the first chunk, bytes only) whose legality is "
+               "an obligation at EVERY emission of every response __call__ on both sides, so every prefix of the emitted "
+               "sequence is legal: the ASGI streaming loop is proved with an abstract producer that may raise at any step and "
+               "a volatile disconnect flag (client disconnect at any await), with the producer closed exactly once on every "
+               "exit; header names on hand-built lists are lower-case bytes; status is the int / the table line. "
+               "Obligations are generated from the real ASTs and discharged by z3/cvc5; the recording-server run over all "
+               "response classes with injected faults stands beside it (bounded), including the exhaustive status table.",
+    level_note="Trusted: the server's send/start_response do not raise (A-server); list_headers emits the header map's items and "
+               "one set-cookie line per cookie (A-list-headers; checked bounded); header map values stay clean through "
+               "MutableHeaders.__setitem__ (proved, C13) but constructor-supplied header maps are an input; "
+               "StatusStringMapping (A-status-table: validated exhaustively over 100..999 on every run); await erased, "
+               "one task (the watcher only flips the volatile flag); the SSE / Stream render_stream producers (threads, queues) "
+               "are covered by the bounded layer only; Latin-1 encodability of generated header values is checked bounded.",
+    technique="deductive verification: emission-trace ghost automaton as obligations at every send/yield/start_response, SMT (z3/cvc5)",
+    explanation="",
+)
+
 NOT_APPLICABLE = {
     "C06": "quantifies over schedules/interleavings (relay thread vs consumer vs closer, asyncio tasks vs ping timer) and is a "
            "bounded-liveness claim; contracts over a sequential, await-erased semantics cannot express an interleaving and "
